@@ -54,6 +54,7 @@ class Sampler:
         self.u = rng.choice(UNIT)
         self.A = Fraction(rng.randint(1, 9), rng.randint(1, 5)) * rng.choice([1, -1])
         self.B = Fraction(rng.randint(1, 9), rng.randint(1, 5)) * rng.choice([1, -1])
+        self.T = rng.choice([Fraction(2), Fraction(1, 2), Fraction(3), Fraction(1)])      # value of the symbolic width/delay T
 
     def env_tokens(self):
         return '%s %s %s %s %s %s %s' % (fstr(self.s), fstr(T0), fstr(self.w), fstr(G), fstr(self.v), fstr(G2), gq(self.u))
@@ -233,7 +234,7 @@ class Gen:
                 txt.append('%s((%s)*t)' % ('cosh' if c else 'sinh', a))
         return toks, txt
 
-    def term(self, shape=None, shape_sub=None):
+    def term(self, shape=None, shape_sub=None, neg_scale=False):
         rng = self.rng
         shape = shape or self.r(['polyexp', 'polyexp', 'sincos', 'sincos', 'sincos', 'product', 'delta', 'delta', 'fn', 'fn',
                                  'fn', 'fnprod', 'step', 'step', 'rstep', 'rstep', 'rstep', 'hyp', 'cexp', 'const', 'undef', 'undef',
@@ -343,6 +344,11 @@ class Gen:
             f = self.r(['rect', 'tri', 'ramp', 'rampstep'])
             a = self.r([Fraction(2), Fraction(3), Fraction(1, 2), Fraction(3, 2), Fraction(4), Fraction(1)])
             b = self.r([Fraction(0), Fraction(0), Fraction(0), -Fraction(rng.randint(1, 4), 2), Fraction(1, 2)])
+            if neg_scale or (shape == 'fn' and rng.random() < 0.15):
+                # time-reversed argument f(-|a| t + b): the part of the signal on t >= 0 only
+                a = -a
+                b = self.r([Fraction(0), Fraction(0), Fraction(1), Fraction(1, 2)])
+                key['a_sign'] = 'neg'
             if shape == 'fnprod':
                 tk, tx = self.smooth_atoms(self.r([['exp'], ['tpow']]))
             else:
@@ -351,9 +357,9 @@ class Gen:
             tx.append('%s(%s)' % (f, self.lin(a, b)))
             lo = {'rect': Fraction(-1, 2), 'tri': Fraction(-1), 'ramp': Fraction(0), 'rampstep': Fraction(0)}[f]
             key.update({'fn': f, 'scale_is_one': a == 1, 'shift_is_zero': b == 0,
-                        'support_before_zero': (lo - b) / a < 0})
+                        'support_before_zero': True if a < 0 else (lo - b) / a < 0})
         elif shape == 'undef':
-            sub = shape_sub or self.r(['func', 'func', 'funcexp', 'deriv', 'deriv', 'integ', 'integ0', 'convxy', 'convyx', 'convbil', 'convexp',
+            sub = shape_sub or self.r(['func', 'func', 'funcexp', 'deriv', 'deriv', 'integ', 'integ0', 'convxy', 'convyx', 'convbil', 'convexp', 'convexp2',
                                        'deriv-at', 'delta-x'])
             key['sub'] = sub
             if sub == 'func':
@@ -382,6 +388,11 @@ class Gen:
             if sub == 'convbil':
                 # bilateral limits: for causal x, y the same convolution
                 return 'convXY %s' % fstr(c), '(%s)*Integral(x(tau)*y(t - tau), (tau, -oo, oo))' % c, key
+            if sub == 'convexp2':
+                # causal convolution with an exponential written in t - tau (SymPy expands the exponent)
+                a = self.rate()
+                return ('convExpX %s %s' % (fstr(c), fstr(a)),
+                        '(%s)*Integral(x(tau)*exp((%s)*(t - tau)), (tau, 0, t))' % (c, a), key)
             if sub == 'deriv-at':
                 # derivative of a scaled / delayed undefined function (x causal, zero initial conditions)
                 n = rng.randint(1, 3)
@@ -580,7 +591,7 @@ def run(chk, replay=None):
         if r.has(S.Integral) or r.has(S.Limit):
             return 'unevaluated'
         X, Y, Xe, Ye, z, x, tt, ics = undef_subs(xs, zic)
-        if any(sy.name == 't' for sy in r.free_symbols):
+        if any(sy.name in ('t', 'tau') for sy in r.free_symbols):     # time or integration variable left in the result
             return 'has-t'
         # initial-condition symbols  x(0), Subs(Derivative(x(t), t), t, 0), ...
         if r.has(S.Subs):
@@ -605,7 +616,7 @@ def run(chk, replay=None):
         r = r.replace(X, lambda a: Xe.subs(z, a)).replace(Y, lambda a: Ye.subs(z, a))
         if r.has(S.Symbol('BAD')):
             return None
-        return smp.value(r, ssym, {'A': smp.rat(smp.A)})
+        return smp.value(r, ssym, {'A': smp.rat(smp.A), 'T': smp.rat(smp.T)})
 
     def ask_terms(terms, smp, xs, zic):
         """driver on every raw term -> (model_total, spec_total, branches) ; totals None when undefined"""
@@ -614,7 +625,7 @@ def run(chk, replay=None):
         brs = []
         for (tok, _txt, _key) in terms:
             # the symbolic coefficient A multiplies every term: scale the numeric coefficient token
-            parts = tok.split(' ')
+            parts = [fstr(1 / smp.T) if x == 'INVT' else x for x in tok.split(' ')]     # symbolic width/delay T (value smp.T)
             cidx = 1
             parts[cidx] = fstr(Fraction(parts[cidx]) * smp.A)
             line = 'lt %s %d ; %s ; %s ; %s' % (smp.env_tokens(), 1 if zic else 0, xs[0], YSIG[0], ' '.join(parts))
@@ -797,6 +808,18 @@ def run(chk, replay=None):
         fixed.append([g2.term('undef', sub)])
     for shp in ['sincosb', 'sincosb', 'zerostep', 'zerostep']:
         fixed.append([g2.term(shp)])
+    fixed.append([g2.term('undef', 'convexp2')])
+    # symbolic width and delay T (sampled at a positive value after the transform): rect((t-T)/T), rampstep((t-T)/T)
+    for f in ('rect', 'rampstep'):
+        fixed.append([('prod 1 %s INVT -1' % f, '(1)*%s((t - T)/T)' % f,
+                       {'kind': 'fn', 'fn': f, 'scale_is_one': False, 'shift_is_zero': False, 'support_before_zero': False, 'symbolic': True})])
+    # time-reversed arguments of the function table (negative scale), one per function
+    for _ in range(6):
+        fixed.append([g2.term('fn', neg_scale=True)])
+    for (f, a) in [('ramp', Fraction(-1)), ('rect', Fraction(-2)), ('tri', Fraction(-1)), ('rampstep', Fraction(-1))]:
+        fixed.append([('prod 1 %s %s 0' % (f, fstr(a)), '(1)*%s(%s)' % (f, Gen.lin(a, 0)),
+                       {'kind': 'fn', 'fn': f, 'scale_is_one': False, 'shift_is_zero': True, 'support_before_zero': True, 'a_sign': 'neg'})])
+
     # function table with a shift that leaves a bare Heaviside(t) after expand_functions (branch `expr.has(Heaviside(t))`)
     for (f, a, b) in [('tri', Fraction(1), Fraction(-1)), ('rect', Fraction(1), Fraction(-1, 2)), ('rect', Fraction(2), Fraction(-1)),
                       ('rampstep', Fraction(1), Fraction(-1))]:
